@@ -110,12 +110,27 @@ def _few_treatable(draw):
   return spec
 
 
+@st.composite
+def _loose_budget(draw, big):
+  """Flavour in which a budget range is present but binds nothing (it spans all attainable budgets), iROAS is well
+  away from 1 and k is small: the top-k selection has to work with the budget-scaled last score entry."""
+  spec = draw(G.search_spec(max_geos=big, min_geos=4, constraint_p=0.1, allow_share=False, elig_style=draw(st.sampled_from(['none', 'free', 'mixed']))))
+  params = spec['params']
+  params['budget_q'] = [0.0, 1.0]
+  params['edge'] = None
+  params['iroas'] = draw(st.sampled_from([0.1, 0.25, 0.5, 2.0, 8.0]))
+  params['n_designs'] = draw(st.sampled_from([1, 2, 3, 5]))
+  params['n_geos_max'] = None
+  spec['panel']['flat'] = []
+  return spec
+
+
 def strategy(tier):
   big = 6 if tier == 'quick' else 7
   opts = [G.search_spec(max_geos=big, min_geos=2, constraint_p=0.45),
           G.search_spec(max_geos=big, min_geos=3, constraint_p=0.3, elig_style='none'),
           G.search_spec(max_geos=big, min_geos=3, constraint_p=0.35, elig_style='mixed'),
-          _offsetting(min(big, 6)), _share_readings(min(big, 6)), _few_treatable()]
+          _offsetting(min(big, 6)), _share_readings(min(big, 6)), _few_treatable(), _loose_budget(min(big, 6))]
   if tier == 'thorough':
     opts.append(G.search_spec(max_geos=8, min_geos=8, constraint_p=0.3))
   return st.one_of(*opts)
